@@ -2,6 +2,7 @@ package checks
 
 import (
 	"encoding/json"
+	"fmt"
 	"strings"
 
 	"github.com/benhoyt/goawk/vexp"
@@ -415,6 +416,7 @@ func c04RunWith(k *c04Checker) {
 	c.Note("trees_2op", int64(len(trees[2])))
 	c.Note("trees_3op", int64(len(trees[3])))
 	c04Families(k, all)
+	c04AfterGetline(k)
 	if k.thorough {
 		t4 := c04Trees(reduced, 4)
 		c.Note("trees_4op_reduced", int64(len(t4[4])))
@@ -572,6 +574,63 @@ func c04Families(k *c04Checker, all []*c04Op) {
 	}
 }
 
+// c04AfterGetline — family (5): what FOLLOWS a getline form. The grammar gives
+// `unary_expr | simple_get` and `simple_get < expr` (the latter only for the
+// form without a command, its operand not extending over a binary operator):
+// after `cmd | getline [lvalue]` every binary operator, `<` included, applies
+// to the whole getline expression; after `getline [lvalue] < file` likewise.
+// The expected tree is the parse of the explicitly parenthesised spelling.
+func c04AfterGetline(k *c04Checker) {
+	c := k.c
+	heads := []string{`"c" | getline`, `"c" | getline x98`, `"c" | getline a98 [ 1 ]`, `x97 y97 | getline x98`, `getline x98 < "f"`, `getline < "f"`}
+	ops := []string{"<", "<=", "==", "!=", ">", ">=", "+", "-", "*", "/", "%", "^", "~", "!~", "&&", "||", "", "in a97", "? 1 : 2"}
+	rights := []string{"y96", "1", `"s"`, "- 1", "y96 + 1", "$ 1"}
+	ctxs := [][2]string{{"BEGIN { r99 = ", " }"}, {"BEGIN { if ( ", " ) x99 }"}, {"BEGIN { while ( ", " ) x99 }"}, {"", " { }"}, {"BEGIN { r99 = ! ( ", " ) }"}}
+	for _, h := range heads {
+		for _, op := range ops {
+			if !k.mine() {
+				continue
+			}
+			for _, r := range rights {
+				tail := " " + op + " " + r
+				if strings.HasPrefix(op, "in ") || strings.HasPrefix(op, "?") {
+					tail = " " + op
+					if r != rights[0] {
+						continue
+					}
+				}
+				if op == "" && !strings.Contains(h, "x98") && !strings.Contains(h, "a98") {
+					continue // `cmd | getline y`: the operand is the lvalue, not a concatenation
+				}
+				if op == "" && strings.HasSuffix(h, `"f"`) {
+					continue // `getline x < "f" y`: the file operand is what is in question (primary only), decided by C04's own families
+				}
+				if op == "" && r == "- 1" {
+					continue // `x - 1` is a subtraction
+				}
+				for ci, cx := range ctxs {
+					src := cx[0] + h + tail + cx[1]
+					ref := cx[0] + "( " + h + " )" + tail + cx[1]
+					want, perr, pn := c04Parse(ref)
+					if perr != "" || pn != "" {
+						continue // the parenthesised spelling is not a program in this context
+					}
+					c.Add("states", 1)
+					cs := c04Case{Src: src, Want: want, Oracle: "strict", Mode: "min", Ctx: fmt.Sprintf("after-getline-%d", ci), Tree: h + " " + op}
+					out, failure := c04Judge(cs)
+					c.Eval(1)
+					c.Add("transitions", 1)
+					c.Outcome(out)
+					if failure != "" {
+						cs.Sig = "operator after a getline form does not apply to the whole getline expression: head=" + strings.ReplaceAll(h, " ", "") + " op=" + strings.Fields(op + " _")[0]
+						k.failCase(cs, failure)
+					}
+				}
+			}
+		}
+	}
+}
+
 func c04Replay(c *core.Ctx, raw json.RawMessage) {
 	var agg c04Aggregate
 	if json.Unmarshal(raw, &agg) == nil && agg.Aggregate {
@@ -600,7 +659,7 @@ func init() {
 			"{var, a[i], $n, number, string, f(x), length} (all typings for <= 1 operator [thorough: <= 2], fixed rotations otherwise) x statement contexts " +
 			"{expression statement, print, pattern, if, print > file; for <= 2 operators also subscript, call argument, printf, 2nd print argument, print | cmd, while} " +
 			"x spellings {fully parenthesised, table-minimal, nothing between ? and :, bare prefix operator after ^ or $, `1 && x = 1` (may be rejected), bare > between ? and : in print (may not be a comparison)}; " +
-			"plus families: one regex-literal leaf at every position, all 36 relational chains (must be rejected), all 4 match chains (rejected or left-grouped), `L | getline [lvalue]` for every L with <= 2 operators binding at least as tightly as concatenation; " +
+			"plus families: one regex-literal leaf at every position, all 36 relational chains (must be rejected), all 4 match chains (rejected or left-grouped), `L | getline [lvalue]` for every L with <= 2 operators binding at least as tightly as concatenation, every binary operator x 6 right operands after 6 getline forms in 5 contexts (expected tree = parse of the explicitly parenthesised spelling); " +
 			"thorough adds all trees with 4 operators over one representative per level. A state is one typed tree, a transition one parsed text; distinct = distinct parsed trees. At most 20 violations per signature and worker are stored individually; all failing cases of a signature are folded into one aggregate violation (count + digest) per worker, replayable by re-running that shard",
 		Assumptions: []string{
 			"`a < b < c` has no grouping (POSIX: non-associative): acceptance is the alarm; `a ~ b ~ c` may be rejected or grouped to the left",
